@@ -72,6 +72,7 @@ def run(chk):
     # (D) fabric
     import simnet
     simnet.c05(chk)
+    simnet.c05_inflight(chk)
     chk.assumptions += ["QUIC delivers a close to the other end (the Notice/Fail steps become enabled); handshakes complete in the absence of loss",
                         "only the comparison of the two identities matters (PeerId derives Ord on [u8;32]); ranks 0..255 in the first / last byte exercise it"]
     if not quick:
